@@ -5,6 +5,8 @@ ROOT = os.path.dirname(os.path.dirname(os.path.abspath(__file__)))
 sys.path.insert(0, os.path.join(ROOT, "lib")); sys.path.insert(0, os.path.join(ROOT, "props"))
 ALL = ["C%02d" % i for i in range(1, 21)]
 PENDING = {}
+# Only properties the coordinator has reviewed and seen exit 0 on the unchanged tree are claimed.
+CLAIMED = set(open(os.path.join(ROOT, "lib", "claimed.txt")).read().split())
 checks, na = [], []
 for pid in ALL:
     p = os.path.join(ROOT, "props", pid.lower() + ".py")
@@ -12,7 +14,7 @@ for pid in ALL:
     if os.path.exists(p):
         mod = importlib.import_module(pid.lower())
         meta = getattr(mod, "MANIFEST", None)
-    if meta:
+    if meta and pid in CLAIMED:
         checks.append({
             "property_id": pid,
             "quick_cmd": f"./check {pid} --tier quick",
